@@ -13,6 +13,15 @@ Numeric clauses (projection, NOT TLC), on the scenario grid layout x rank given 
   smooth.lp / rolling_window keep constants and length; non_uniform_savgol reproduces polynomials of degree <= order;
   smooth_interpolate_savgol returns finite values over NaN gaps.
 Binding self-tests: corrupted records must be flagged by the trace spec, perturbed outputs by the projections.
+State and argument forms the calls meet (all judged by the clauses above): spike vectors of other integer / float types, read-only,
+as tuples or lists, beyond 2^31 / 2^32 samples, float sampling rates, every option left to its default, the same arrays handed to
+every chunk size (and to two sorters), arrays the call must leave as they were; label vectors as integer arrays / lists / a column
+view of the data, traces of other types, one header dictionary used for a second stack along other labels; site coordinates as
+int64 / float32 / lists, layouts with missing sites, the same grid again in another trace order, imax (none, beyond, below the
+number of frequencies), niter 1-3, complex64 spectra, transposed / strided / read-only matrices, the caller's array de-ranked first
+and asked for at full rank afterwards, ranks above the number of channels, arbitrary collection labels, offsets in the data;
+cadzow_np1 (the windowed caller of denoise) at the full rank of a window; smoothers on 1..700 samples, integer / float32 constants,
+lists, defaults; Savitzky-Golay orders up to window - 1, lists, integer abscissae.
 """
 import contextlib
 import copy
@@ -34,6 +43,34 @@ from vkit import tlc, tracecheck  # noqa: E402
 TRACE = ("trace/CountingTrace.tla", "trace/CountingTrace.cfg")
 
 
+def memo_numba_jit():
+    """iblutil.numerical.ismember2d (called by cadzow.trajectory) defines and compiles a numba function on every call (0.2 s each,
+    half of this check's wall time).  Compile each distinct function body once per process: same code, same result."""
+    try:
+        import numba
+    except Exception:
+        return
+    if getattr(numba.jit, "_c20_memo", False):
+        return
+    orig, memo = numba.jit, {}
+
+    def jit(*a, **k):
+        if len(a) == 1 and callable(a[0]) and not k:
+            return jit()(a[0])
+        dec = orig(*a, **k)
+
+        def wrap(fn):
+            if getattr(fn, "__closure__", None) or not hasattr(fn, "__code__"):
+                return dec(fn)
+            key = (fn.__code__, repr(a), repr(sorted(k.items())))
+            if key not in memo:
+                memo[key] = dec(fn)
+            return memo[key]
+        return wrap
+    jit._c20_memo = True
+    numba.jit = jit
+
+
 @contextlib.contextmanager
 def quiet():
     with contextlib.redirect_stdout(io.StringIO()), contextlib.redirect_stderr(io.StringIO()), warnings.catch_warnings():
@@ -41,12 +78,42 @@ def quiet():
         yield
 
 
+@contextlib.contextmanager
+def mem_cap(extra_gb=12):
+    """spike times turned into garbage by a defect make the binning ask for tens of gigabytes: the real call then fails with a
+    MemoryError (reported like any exception) instead of the machine killing the check.  Soft address-space limit = what the process
+    has mapped now + extra_gb, only around the call (TLC's JVMs are started outside)."""
+    try:
+        import resource
+        soft, hard = resource.getrlimit(resource.RLIMIT_AS)
+        with open("/proc/self/status") as f:
+            now = next(int(ln.split()[1]) * 1024 for ln in f if ln.startswith("VmSize:"))
+        cap = now + extra_gb * 2 ** 30
+        if hard != resource.RLIM_INFINITY:
+            cap = min(cap, hard)
+        if soft != resource.RLIM_INFINITY and soft <= cap:
+            raise ValueError("a tighter limit is in place")
+        resource.setrlimit(resource.RLIMIT_AS, (cap, hard))
+    except Exception:
+        yield
+        return
+    try:
+        yield
+    finally:
+        resource.setrlimit(resource.RLIMIT_AS, (soft, hard))
+
+
 # ------------------------------------------------------------------------------------------------
 # (a) Venn
 # ------------------------------------------------------------------------------------------------
 
-def venn_trains(cols, rnd, binsize, chbin, nchbins, spread):
-    """count table (bins x sorters) -> sorted spike trains; bin b sits in a distinct (time bin, channel bin)"""
+SDT = {"int64": np.int64, "int32": np.int32, "uint32": np.uint32, "uint64": np.uint64, "float64": np.float64}
+CDT = {"int64": np.int64, "int32": np.int32, "int16": np.int16, "uint8": np.uint8, "float64": np.float64}
+
+
+def venn_trains(cols, rnd, binsize, chbin, nchbins, spread, base=0, sdt="int64", cdt="int64", ro=False):
+    """count table (bins x sorters) -> sorted spike trains; bin b sits in a distinct (time bin, channel bin); `base` (a multiple of
+    the bin size) shifts every sample (recordings longer than 2^31 / 2^32 samples); element types of the two vectors as named"""
     nb, ns = len(cols), len(cols[0])
     slots = [(tb, cb) for tb in range(nb + spread) for cb in range(nchbins)]
     place = rnd.sample(slots, nb)
@@ -56,30 +123,56 @@ def venn_trains(cols, rnd, binsize, chbin, nchbins, spread):
         for b in range(nb):
             tb, cb = place[b]
             for _ in range(cols[b][s]):
-                sp.append((tb * binsize + rnd.randrange(binsize), cb * chbin + rnd.randrange(chbin)))
+                sp.append((base + tb * binsize + rnd.randrange(binsize), cb * chbin + rnd.randrange(chbin)))
         sp.sort()
-        trains.append((np.array([a for a, _ in sp], dtype=np.int64), np.array([c for _, c in sp], dtype=np.int64)))
+        trains.append((np.array([a for a, _ in sp], dtype=np.int64).astype(SDT[sdt]), np.array([c for _, c in sp], dtype=np.int64).astype(CDT[cdt])))
+    if ro:
+        for t in trains:                # spike tables loaded as read-only memory maps
+            t[0].setflags(write=False)
+            t[1].setflags(write=False)
     return trains
 
 
-def venn_call(trains, binsize, chbin, nch, chunk, fs=30000):
-    """one real call -> trace record (chunks = non-empty bin_counts columns per chunk)"""
+def venn_call(trains, binsize, chbin, nch, chunk, fs=30000, seq=tuple, bare=False):
+    """one real call -> trace record (chunks = non-empty bin_counts columns per chunk).  The caller's arrays are handed over as they
+    are (the same objects for every chunk size of a case); rec["mutated"] tells whether the call changed them."""
     import ibldsp.spiketrains as st
     ns = len(trains)
     got = []
-    orig = st.bincount2D
+    try:
+        import iblutil.numerical as inum
+    except Exception:
+        inum = None
+    # bin_counts are read off the return values of bincount2D, wherever the code looks the function up
+    sites = [(m, "bincount2D", getattr(m, "bincount2D")) for m in (st, inum) if m is not None and hasattr(m, "bincount2D")]
+    orig = sites[0][2] if sites else None
+
+    # a recording of max_samples samples has max_samples // chunk_size + 1 chunks: a call that asks for many times more bin counts
+    # than that (spike times wrapped around to huge numbers, say) is stopped instead of filling the memory
+    ch_eff = chunk if chunk else 20 * fs
+    limit = ns * (2 * (int(max(float(t[0].max()) for t in trains) // ch_eff) + 1) + 16)
+
+    class ChunkLimit(RuntimeError):
+        pass
 
     def spy(*a, **k):
+        if len(got) >= limit:
+            raise ChunkLimit(f"more than {limit // ns} chunks")
         r = orig(*a, **k)
         got.append(np.asarray(r[0]).flatten())
         return r
-    rec = {"kind": "venn", "ns": ns, "N": [int(t[0].size) for t in trains], "chunks": [], "ret": [], "exc": ""}
-    st.bincount2D = spy
+    rec = {"kind": "venn", "ns": ns, "N": [int(t[0].size) for t in trains], "chunks": [], "ret": [], "exc": "", "mutated": False}
+    before = [(t[0].copy(), t[1].copy()) for t in trains]
+    for m, nm, _f in sites:
+        setattr(m, nm, spy)
     try:
-        with quiet():
+        with quiet(), mem_cap():
             f = st.spikes_venn2 if ns == 2 else st.spikes_venn3
-            res = f(tuple(t[0] for t in trains), tuple(t[1] for t in trains), samples_binsize=binsize,
-                    channels_binsize=chbin, fs=fs, num_channels=nch, chunk_size=chunk)
+            if bare:
+                res = f(seq(t[0] for t in trains), seq(t[1] for t in trains))
+            else:
+                res = f(seq(t[0] for t in trains), seq(t[1] for t in trains), samples_binsize=binsize,
+                        channels_binsize=chbin, fs=fs, num_channels=nch, chunk_size=chunk)
         names = [format(i, f"0{ns}b") for i in range(1, 2 ** ns)]
         rec["ret"] = [int(res[n]) if n in res else -1 for n in names]
         if set(res) != set(names):
@@ -87,7 +180,11 @@ def venn_call(trains, binsize, chbin, nch, chunk, fs=30000):
     except Exception as e:
         rec["exc"] = type(e).__name__
     finally:
-        st.bincount2D = orig
+        for m, nm, f0 in sites:
+            setattr(m, nm, f0)
+    rec["mutated"] = any(a.dtype != a0.dtype or not np.array_equal(a, a0) for t, t0 in zip(trains, before) for a, a0 in zip(t, t0))
+    if rec["mutated"]:
+        rec["before"] = before
     if len(got) % ns == 0 and not rec["exc"]:
         for k in range(0, len(got), ns):
             m = np.stack(got[k:k + ns])
@@ -96,6 +193,26 @@ def venn_call(trains, binsize, chbin, nch, chunk, fs=30000):
     elif not rec["exc"]:
         rec["chunks"] = [[[-1] * ns]]
     return rec
+
+
+def venn_reuse(ctx, t, trains, binsize, chbin, nch, fs=30000, chunk=None):
+    """a call changed the spike arrays of its caller: counting the same trains again (what the harness does with the next chunk size)
+    must still attribute the caller's spikes - compare the counts of the changed arrays with those of the pristine ones"""
+    pristine = [(a.copy(), c.copy()) for a, c in t["before"]]
+    r_now = venn_call([(a.copy(), c.copy()) for a, c in trains], binsize, chbin, nch, chunk, fs=fs)
+    r_ref = venn_call(pristine, binsize, chbin, nch, chunk, fs=fs)
+    if r_now["ret"] != r_ref["ret"] or r_now["exc"]:
+        ctx.violation("venn:attribution", f"{describe(t)} changes the spike arrays of its caller: the same trains counted again give "
+                      f"{r_now['ret'] or r_now['exc']} instead of {r_ref['ret']} (spikes attributed to no / another region)", t.get("scenario", {"kind": "venn"}))
+    else:
+        ctx._c20_mut = getattr(ctx, "_c20_mut", 0) + 1
+        if ctx._c20_mut <= 5:
+            ctx.spec_drift(f"{describe(t)} changes the spike arrays of its caller (the counts of a second call are unaffected)")
+    for (a, c), (a0, c0) in zip(trains, t["before"]):     # the next calls of this case see the caller's data again
+        if a.shape == a0.shape and c.shape == c0.shape and a.flags.writeable and c.flags.writeable:
+            a[...] = a0
+            c[...] = c0
+    del t["before"]
 
 
 def realistic_trains(rnd, nrnd, ns, dur_s, fs, nch, rate):
@@ -121,17 +238,24 @@ def realistic_trains(rnd, nrnd, ns, dur_s, fs, nch, rate):
 # (b) stack
 # ------------------------------------------------------------------------------------------------
 
-def stack_call(word, rnd, nrnd, agg):
-    """labels 1..k are mapped to increasing arbitrary values; column 0 = 2^trace, column 1 = the label value"""
+def stack_call(word, rnd, nrnd, agg, wkind="float", ddt="float64"):
+    """labels 1..k are mapped to increasing arbitrary values; column 0 = 2^trace, column 1 = the label value.  wkind: the label
+    vector as a float / integer array or a Python list; ddt: element type of the traces (sums of small integers are exact in all)"""
     import ibldsp.voltage as voltage
     n = len(word)
     vals = sorted(rnd.sample(range(-50, 50), max(word)))
     lab = np.array([vals[w - 1] for w in word], dtype=float)
     data = np.c_[2.0 ** np.arange(n), lab, nrnd.standard_normal((n, 3))]
+    if ddt == "int64":
+        data = np.c_[data[:, :2], nrnd.integers(-9, 10, (n, 3))].astype(np.int64)
+    elif ddt == "float32":
+        data = data.astype(np.float32)
+    wl = {"float": lab.copy(), "int": lab.astype(np.int64), "int16": lab.astype(np.int16), "list": [int(v) for v in lab]}[wkind]
     rec = {"kind": "stack", "word": [int(v) for v in lab], "groups": [], "fold": [], "rows": [], "exc": ""}
     try:
         with quiet():
-            st, fold = voltage.stack(data.copy(), lab.copy(), fcn_agg=agg)
+            st, fold = voltage.stack(data.copy(), wl, fcn_agg=agg)
+        st = np.asarray(st, dtype=float)
         fold = [int(f) for f in np.asarray(fold)]
         tot = st[:, 0] * (np.array(fold) if agg is not np.sum else 1.0)
         rec["fold"] = fold
@@ -140,19 +264,32 @@ def stack_call(word, rnd, nrnd, agg):
                        else [0] for t in tot]
     except Exception as e:
         rec["exc"] = type(e).__name__
-    return rec, data, lab
+    return rec, np.asarray(data, dtype=float), lab
 
 
 # ------------------------------------------------------------------------------------------------
 # (c) trajectory
 # ------------------------------------------------------------------------------------------------
 
-def layout_coords(present, rnd):
+COORD_KINDS = ["float", "float", "int", "f32", "list"]
+
+
+def layout_coords(present, rnd, kind="float"):
+    """site coordinates of the cells in a random trace order.  kind: float64 arrays with an arbitrary origin (as before), or - origin
+    and pitch integers, so that every coordinate is exact - int64 / float32 arrays or Python lists"""
     cells = [tuple(c) for c in present]
     rnd.shuffle(cells)
     x0, y0, dx, dy = rnd.uniform(-50, 50), rnd.uniform(-100, 2000), rnd.choice([16.0, 32.0, 6.0, 1.0]), rnd.choice([20.0, 15.0, 6.0, 2.5])
+    if kind != "float":
+        x0, y0, dy = float(round(x0)), float(round(y0)), (dy if dy != 2.5 else 3.0)
     x = np.array([x0 + dx * c[0] for c in cells])
     y = np.array([y0 + dy * c[1] for c in cells])
+    if kind == "int":
+        x, y = x.astype(np.int64), y.astype(np.int64)
+    elif kind == "f32":
+        x, y = x.astype(np.float32), y.astype(np.float32)
+    elif kind == "list":
+        x, y = [float(v) for v in x], [float(v) for v in y]
     return cells, x, y
 
 
@@ -236,6 +373,25 @@ def _t(ctx, what):
 # better than 1e-10 / 1e-8; "reduces noise": strictly smaller error than the noise that was added)
 # ------------------------------------------------------------------------------------------------
 
+LAYOUTS = ["c", "c", "t", "s", "ro"]
+
+
+def as_layout(A, how):
+    """the same values as the caller may hold them: a fresh C-ordered array, the transposed view of an array stored the other way
+    round (samples x channels files), every second row / element of a larger array, or a read-only array (memory-mapped files)"""
+    A = np.asarray(A)
+    if how == "t" and A.ndim == 2:
+        return np.ascontiguousarray(A.T).T
+    if how == "s":
+        big = np.zeros((2 * A.shape[0],) + A.shape[1:], dtype=A.dtype)
+        big[::2] = A
+        return big[::2]
+    out = A.copy()
+    if how == "ro":
+        out.setflags(write=False)
+    return out
+
+
 def p_same(out, ref, tol):
     out, ref = np.asarray(out), np.asarray(ref)
     if out.shape != ref.shape or not np.all(np.isfinite(out)):
@@ -261,6 +417,7 @@ def real(ctx, key, what, sc, f, *a, **k):
 
 
 def plane_waves(x, y, nf, nrnd, nwaves):
+    x, y = np.asarray(x, dtype=float), np.asarray(y, dtype=float)
     W = np.zeros((x.size, nf), dtype=complex)
     for _ in range(nwaves):
         kx, ky = nrnd.uniform(-0.05, 0.05), nrnd.uniform(-0.05, 0.05)
@@ -269,25 +426,110 @@ def plane_waves(x, y, nf, nrnd, nwaves):
     return W
 
 
+# cadzow_np1 (the caller of denoise over a whole Neuropixel 1 probe): the working parameter sets of its docstring
+NP1_SETS = [dict(ovx=16, nswx=32, npad=0), dict(ovx=8, nswx=16, npad=0), dict(ovx=32, nswx=64, npad=0), dict(ovx=24, nswx=64, npad=0),
+            dict(ovx=5, nswx=33, npad=6)]
+
+
+def numeric_np1(ctx, rnd, nrnd, fullrank, n):
+    """cadzow_np1 hands windows of the probe (4 staggered columns x nswx / 2 rows), its own index of the highest frequency and the
+    taper gains to cadzow.denoise: at the full rank of a window every frequency below fmax comes back unchanged"""
+    import ibldsp.cadzow as cadzow
+    f = getattr(cadzow, "cadzow_np1", None)
+    if f is None:
+        ctx.spec_drift("ibldsp.cadzow has no cadzow_np1: the windowed caller of denoise is not exercised")
+        return 0
+    done = 0
+    for k in range(n):
+        kw = dict(NP1_SETS[k % len(NP1_SETS)] if k else NP1_SETS[rnd.randrange(len(NP1_SETS))])
+        full = fullrank[3][(kw["nswx"] + 1) // 2 - 1]
+        ns, fs = rnd.choice([8, 12, 16, 24]), 30000
+        fmax = rnd.choice([20000, 7500, 7500, 3000])
+        wav = nrnd.standard_normal((384, ns)) + rnd.choice([0.0, 50.0])
+        arg = wav.copy()
+        if rnd.random() < 0.5:
+            import neuropixel
+            kw["h"] = neuropixel.trace_header(version=1)
+        if fmax == 7500 and rnd.random() < 0.5:
+            call = dict(kw, fs=fs, rank=full)                  # fmax left to its default
+        else:
+            call = dict(kw, fs=fs, rank=full, fmax=fmax)
+        sc = {"kind": "cadzow", "case": "np1", "ns": ns, "fmax": fmax, **{a: b for a, b in kw.items() if a != "h"}}
+        what = f"cadzow_np1(384x{ns}, rank={full}, fmax={fmax}, ovx={kw['ovx']}, nswx={kw['nswx']}, npad={kw['npad']})"
+        ok, out = real(ctx, "cadzow:full-rank-identity", what, sc, f, arg, **call)
+        done += 1
+        if not ok:
+            continue
+        keep = int(np.sum(np.fft.rfftfreq(ns, d=1 / fs) < fmax))              # frequencies strictly below fmax are de-ranked and kept
+        out = np.asarray(out)
+        if out.shape != wav.shape or not np.all(np.isfinite(out)):
+            ctx.violation("cadzow:full-rank-identity", f"{what} returns shape {out.shape} / non-finite values", sc)
+        elif not p_same(np.fft.rfft(out)[:, :keep], np.fft.rfft(wav)[:, :keep], 1e-9) or not np.array_equal(arg, wav):
+            ctx.violation("cadzow:full-rank-identity", f"{what}: at the full rank of every window the {keep} frequencies below fmax change by "
+                          f"{np.max(np.abs(np.fft.rfft(out)[:, :keep] - np.fft.rfft(wav)[:, :keep])):.3g}"
+                          f"{'' if np.array_equal(arg, wav) else ' and the input array was modified'}", sc)
+    ctx.count(done)
+    return done
+
+
 def numeric_cadzow(ctx, rnd, nrnd, fullrank, n_id, n_noise):
     import ibldsp.cadzow as cadzow
     done = 0
     shapes = [(nx, ny) for nx in range(1, 5) for ny in range(4, 41)]
     rnd.shuffle(shapes)
-    for k, (nx, ny) in enumerate(shapes[:n_id]):
+    shapes = (shapes * (1 + n_id // len(shapes)))[:n_id]      # further passes over the layouts meet other options (k below)
+    for k, (nx, ny) in enumerate(shapes):
         stag = nx >= 2 and k % 3 == 2
-        cells, x, y = layout_coords(grid_cells(nx, ny, stag), rnd)
+        ck = rnd.choice(COORD_KINDS)
+        present = grid_cells(nx, ny, stag)
+        holes = 0
+        if k % 6 == 5:
+            # sites missing from the layout (channels left out): every column and every row keeps at least one site
+            for cell in rnd.sample(present, min(3, len(present))):
+                if sum(c[0] == cell[0] for c in present) > 1 and sum(c[1] == cell[1] for c in present) > 1:
+                    present.remove(cell)
+                    holes += 1
+        cells, x, y = layout_coords(present, rnd, ck)
+        ntr = len(cells)
         nf = rnd.choice([1, 3, 6])
         full = fullrank[nx - 1][ny - 1]
-        sc = {"kind": "cadzow", "nx": nx, "ny": ny, "stag": stag, "seed": rnd.randrange(10 ** 9), "nf": nf}
-        W = nrnd.standard_normal((x.size, nf)) + 1j * nrnd.standard_normal((x.size, nf))
-        ok, out = real(ctx, "cadzow:full-rank-identity", f"cadzow.denoise on a {nx}x{ny} layout at full rank {full}", dict(sc, case="full"),
-                       cadzow.denoise, W.copy(), x, y, full, niter=rnd.choice([1, 2]))
+        # index of the highest frequency to de-rank: all (None, 0), exactly / more than the number of frequencies, or fewer (then the
+        # identity is demanded of the frequencies that are kept)
+        imax = rnd.choice([None, None, 0, nf, nf + 2, rnd.randint(1, nf)])
+        keep = nf if not imax else min(nf, imax)
+        niter = rnd.choice([1, 2, 3])
+        c64 = k % 5 == 4
+        sc = {"kind": "cadzow", "nx": nx, "ny": ny, "stag": stag, "seed": rnd.randrange(10 ** 9), "nf": nf, "coords": ck, "imax": imax,
+              "niter": niter, "complex64": c64, "holes": holes}
+        W = nrnd.standard_normal((ntr, nf)) + 1j * nrnd.standard_normal((ntr, nf)) + rnd.choice([0.0, 0.0, 30.0 - 10.0j])
+        tol = 1e-9
+        if c64:
+            W, tol = W.astype(np.complex64), 1e-5        # single precision spectra (rfft of float32 data): identity to single precision
+        arg = as_layout(W, rnd.choice(LAYOUTS))
+        what = f"cadzow.denoise on a {nx}x{ny}{' staggered' if stag else ''} layout ({ck} coordinates{f', {holes} sites missing' if holes else ''}) at full rank {full}, imax={imax}, niter={niter}"
+        if k % 3 == 0 and full > 1:
+            # the caller's array is used twice: first de-ranked, then at full rank
+            real(ctx, "cadzow:full-rank-identity", f"cadzow.denoise on a {nx}x{ny} layout at rank 1", dict(sc, case="full"), cadzow.denoise, arg, x, y, 1)
+            done += 1
+        ok, out = real(ctx, "cadzow:full-rank-identity", what, dict(sc, case="full"), cadzow.denoise, arg, x, y, full, imax=imax, niter=niter)
         done += 1
-        if ok and not p_same(out, W, 1e-9):
-            ctx.violation("cadzow:full-rank-identity", f"cadzow.denoise on a {nx}x{ny}{' staggered' if stag else ''} layout at full rank "
-                          f"{full} changes its input by {np.max(np.abs(out - W)):.3g}", dict(sc, case="full"))
-        if not stag:
+        if ok and (np.asarray(out).shape != W.shape or not p_same(np.asarray(out)[:, :keep], W[:, :keep], tol)):
+            ctx.violation("cadzow:full-rank-identity", f"{what} changes its input by "
+                          f"{np.max(np.abs(out[:, :keep] - W[:, :keep])) if np.asarray(out).shape == W.shape else 'shape ' + str(np.asarray(out).shape)}"
+                          f"{' (the same array had been de-ranked by an earlier call)' if k % 3 == 0 and full > 1 else ''}", dict(sc, case="full"))
+        if k % 4 == 1:
+            # the same grid again with the traces in another order and another origin (nothing may be remembered from the call before)
+            perm = nrnd.permutation(ntr)
+            x2 = (np.asarray(x, dtype=float) + 7.0)[perm]
+            y2 = (np.asarray(y, dtype=float) - 40.0)[perm]
+            W2 = nrnd.standard_normal((ntr, nf)) + 1j * nrnd.standard_normal((ntr, nf))
+            ok, out = real(ctx, "cadzow:full-rank-identity", what + " (second layout of the same shape)", dict(sc, case="full"),
+                           cadzow.denoise, W2.copy(), x2, y2, full)
+            done += 1
+            if ok and not p_same(out, W2, 1e-9):
+                ctx.violation("cadzow:full-rank-identity", f"cadzow.denoise on a {nx}x{ny} layout at full rank {full}, called after the same grid "
+                              f"with another trace order, changes its input by {np.max(np.abs(out - W2)):.3g}", dict(sc, case="full"))
+        if not stag and not holes:
             P = plane_waves(x, y, nf, nrnd, 1)
             for r in range(1, min(3, full) + 1):
                 ok, out = real(ctx, "cadzow:plane-wave-identity", f"cadzow.denoise of one plane wave on a {nx}x{ny} grid at rank {r}",
@@ -307,12 +549,22 @@ def numeric_cadzow(ctx, rnd, nrnd, fullrank, n_id, n_noise):
             continue
         S = plane_waves(x, y, 4, nrnd, nw)
         Nz = 0.3 * (nrnd.standard_normal(S.shape) + 1j * nrnd.standard_normal(S.shape))
+        noisy = S + Nz
+        arg = as_layout(noisy, rnd.choice(LAYOUTS))
         ok, out = real(ctx, "cadzow:noise-reduced", f"cadzow.denoise at rank {nw} on a {nx}x{ny} grid", {"kind": "cadzow", "case": "noise"},
-                       cadzow.denoise, S + Nz, x, y, nw)
+                       cadzow.denoise, arg, x, y, nw)
         done += 1
-        if ok and not p_reduced(out, S, S + Nz):
+        if ok and not p_reduced(out, S, noisy):
             ctx.violation("cadzow:noise-reduced", f"cadzow.denoise at rank {nw} on a {nx}x{ny} grid does not reduce the added noise: "
                           f"error {np.linalg.norm(out - S):.3g} vs noise {np.linalg.norm(Nz):.3g}", {"kind": "cadzow", "case": "noise"})
+        # the caller's noisy array again, now at full rank: it comes back as the caller made it
+        full = fullrank[nx - 1][ny - 1]
+        ok, out = real(ctx, "cadzow:full-rank-identity", f"cadzow.denoise on a {nx}x{ny} grid at full rank {full}", {"kind": "cadzow", "case": "noise"},
+                       cadzow.denoise, arg, x, y, full)
+        done += 1
+        if ok and not p_same(out, noisy, 1e-9):
+            ctx.violation("cadzow:full-rank-identity", f"cadzow.denoise on a {nx}x{ny} grid at full rank {full}, given the array that a call at "
+                          f"rank {nw} was given before, differs from the caller's data by {np.max(np.abs(out - noisy)):.3g}", {"kind": "cadzow", "case": "noise"})
     ctx.count(done)
     return done
 
@@ -320,10 +572,13 @@ def numeric_cadzow(ctx, rnd, nrnd, fullrank, n_id, n_noise):
 def numeric_svd(ctx, rnd, nrnd, n):
     import ibldsp.voltage as voltage
     done = 0
-    for _ in range(n):
-        nc = rnd.choice([4, 6, 8, 12, 16, 24, 32, 48])
+    for it in range(n):
+        nc = rnd.choice([4, 6, 8, 12, 16, 24, 32, 48, 5, 7, 9, 33])
         ns = rnd.choice([nc + 5, 3 * nc, 200, max(2, nc - 3)])
-        D = nrnd.standard_normal((nc, ns))
+        D = nrnd.standard_normal((nc, ns)) + rnd.choice([0.0, 0.0, 100.0])       # recordings carry offsets
+        tol, f32 = 1e-9, it % 4 == 3
+        if f32:
+            D, tol = D.astype(np.float32), 1e-5                                  # single precision data: identity to single precision
         ng = rnd.choice([1, 2, 3, 4])
         if rnd.random() < 0.5:
             coll = np.sort(nrnd.integers(0, ng, nc))
@@ -331,22 +586,36 @@ def numeric_svd(ctx, rnd, nrnd, n):
             coll = np.repeat(np.arange(ng), -(-nc // ng))[:nc]
         if rnd.random() < 0.5:
             coll = coll[nrnd.permutation(nc)]
+        if rnd.random() < 0.4:
+            coll = np.array(sorted(rnd.sample([-3, 0, 1, 2.5, 4, 7, 11], ng)))[coll]    # labels need not be 0..n-1 (nor integers)
+        # at least the full rank: exactly the number of channels, or more
+        rank = rnd.choice([nc, nc, nc + 1, 3 * nc])
         for c in (None, coll):
-            ok, out = real(ctx, "svd:full-rank-identity", f"svd_denoise_npx({nc}x{ns}, rank={nc})", {"kind": "svd"},
-                           voltage.svd_denoise_npx, D.copy(), rank=nc, collection=c)
+            lay = rnd.choice(LAYOUTS)
+            ok, out = real(ctx, "svd:full-rank-identity", f"svd_denoise_npx({nc}x{ns}, rank={rank}, array layout {lay})", {"kind": "svd"},
+                           voltage.svd_denoise_npx, as_layout(D, lay), rank=rank, collection=c)
             done += 1
-            if ok and not p_same(out, D, 1e-9):
-                ctx.violation("svd:full-rank-identity", f"svd_denoise_npx({nc}x{ns}, rank={nc}, collection={'None' if c is None else c.tolist()}) "
-                              f"changes its input by {np.max(np.abs(out - D)):.3g}", {"kind": "svd"})
+            if ok and not p_same(out, D, tol):
+                ctx.violation("svd:full-rank-identity", f"svd_denoise_npx({nc}x{ns} {D.dtype}, rank={rank}, collection={'None' if c is None else c.tolist()}) "
+                              f"changes its input by {np.max(np.abs(out - D)) if np.asarray(out).shape == D.shape else 'shape ' + str(np.asarray(out).shape)}",
+                              {"kind": "svd"})
         # low-rank signal + noise, requested rank = rank of the signal
         k = rnd.choice([1, 2, 3])
         if ns > nc >= 8 * k:
             S = nrnd.standard_normal((nc, k)) @ nrnd.standard_normal((k, ns))
             Nz = 0.2 * nrnd.standard_normal((nc, ns))
-            ok, out = real(ctx, "svd:noise-reduced", f"svd_denoise_npx({nc}x{ns}, rank={k})", {"kind": "svd"}, voltage.svd_denoise_npx, S + Nz, rank=k)
+            noisy = S + Nz
+            arg = as_layout(noisy, rnd.choice(LAYOUTS))
+            ok, out = real(ctx, "svd:noise-reduced", f"svd_denoise_npx({nc}x{ns}, rank={k})", {"kind": "svd"}, voltage.svd_denoise_npx, arg, rank=k)
             done += 1
-            if ok and not p_reduced(out, S, S + Nz):
+            if ok and not p_reduced(out, S, noisy):
                 ctx.violation("svd:noise-reduced", f"svd_denoise_npx({nc}x{ns}, rank={k}) does not reduce the added noise", {"kind": "svd"})
+            # the caller's noisy array again, at full rank: it comes back as the caller made it
+            ok, out = real(ctx, "svd:full-rank-identity", f"svd_denoise_npx({nc}x{ns}, rank={nc})", {"kind": "svd"}, voltage.svd_denoise_npx, arg, rank=nc)
+            done += 1
+            if ok and not p_same(out, noisy, 1e-9):
+                ctx.violation("svd:full-rank-identity", f"svd_denoise_npx({nc}x{ns}, rank={nc}), given the array that a call at rank {k} was given "
+                              f"before, differs from the caller's data by {np.max(np.abs(out - noisy)):.3g}", {"kind": "svd"})
             ok, out = real(ctx, "svd:rank-k-identity", f"svd_denoise_npx({nc}x{ns}, rank={k})", {"kind": "svd"}, voltage.svd_denoise_npx, S.copy(), rank=k)
             done += 1
             if ok and not p_same(out, S, 1e-9):
@@ -391,51 +660,91 @@ def numeric_svd(ctx, rnd, nrnd, n):
 def numeric_smooth(ctx, rnd, nrnd, n):
     import ibldsp.smooth as smooth
     done = 0
-    for _ in range(n):
-        # lp / rolling_window: constants and length
-        m = rnd.choice([rnd.randint(8, 60), rnd.randint(60, 700)])
-        c = rnd.choice([0.0, 1.0, -3.5, 1e-6, 12345.678])
-        x = np.full(m, c)
+    for it in range(n):
+        # lp / rolling_window: constants and length.  Lengths from a single sample on; element types float64 / float32 / integers
+        # (constants that every type holds exactly); the caller's arrays are used for both smoothers and must come through unchanged
+        m = rnd.choice([rnd.randint(8, 60), rnd.randint(60, 700), rnd.randint(1, 8)])
+        dt = rnd.choice([np.float64, np.float64, np.float32, np.int64, np.int32])
+        c = rnd.choice([0.0, 1.0, -3.5, 1e-6, 12345.678]) if dt is np.float64 else rnd.choice([0.0, 1.0, -3.5, 7.0, 4096.0])
+        if dt in (np.int64, np.int32):
+            c = float(int(c))
+        x0 = np.full(m, c, dtype=dt)
+        x = as_layout(x0, rnd.choice(["c", "c", "s", "ro"]))            # e.g. one column of a table, a read-only array
         f0 = rnd.uniform(0.02, 0.6)
         fac = [f0, f0 + rnd.uniform(0.02, 0.3)]
-        pad = rnd.choice([0.05, 0.2, 0.5, 1.0])
-        z = nrnd.standard_normal(m)
-        ok, out = real(ctx, "smooth:lp", f"smooth.lp(n={m}, fac={fac}, pad={pad})", {"kind": "smooth"}, smooth.lp, x, fac, pad=pad)
-        ok2, out2 = real(ctx, "smooth:lp", f"smooth.lp(n={m}, fac={fac}, pad={pad})", {"kind": "smooth"}, smooth.lp, z, fac, pad=pad)
+        facarg = rnd.choice([fac, tuple(fac), np.array(fac)])
+        pad = rnd.choice([0.05, 0.2, 0.5, 1.0, None])
+        kw = {} if pad is None else {"pad": pad}                       # None: the option is left to its default
+        z0 = nrnd.standard_normal(m)
+        z = as_layout(z0, rnd.choice(["c", "c", "s", "ro"]))
+        ok, out = real(ctx, "smooth:lp", f"smooth.lp(n={m}, fac={fac}, pad={pad})", {"kind": "smooth"}, smooth.lp, x, facarg, **kw)
+        ok2, out2 = real(ctx, "smooth:lp", f"smooth.lp(n={m}, fac={fac}, pad={pad})", {"kind": "smooth"}, smooth.lp, z, facarg, **kw)
         done += 2
-        if ok and ok2 and (not p_same(out, x, 1e-9) or np.asarray(out2).shape != z.shape):
-            ctx.violation("smooth:lp", f"smooth.lp(n={m}, fac={fac}, pad={pad}): constant {c} -> deviation "
+        if ok and ok2 and (not p_same(out, x0, 1e-9) or np.asarray(out2).shape != z.shape):
+            ctx.violation("smooth:lp", f"smooth.lp(n={m} {x0.dtype}, fac={fac}, pad={pad}): constant {c} -> deviation "
                           f"{np.max(np.abs(np.asarray(out) - c)) if np.asarray(out).shape == x.shape else 'shape ' + str(np.asarray(out).shape)}, "
                           f"random input length {np.asarray(out2).shape}", {"kind": "smooth"})
+        if ok and ok2 and it % 2:
+            # another constant of the same length and options right afterwards (nothing of the calls before may come back)
+            x2 = np.full(m, float(c) + 2.0)
+            ok, out = real(ctx, "smooth:lp", f"smooth.lp(n={m}, fac={fac}, pad={pad})", {"kind": "smooth"}, smooth.lp, x2.copy(), facarg, **kw)
+            done += 1
+            if ok and not p_same(out, x2, 1e-9):
+                ctx.violation("smooth:lp", f"smooth.lp(n={m}, fac={fac}, pad={pad}), called after two signals of the same length: constant {c + 2.0} -> "
+                              f"deviation {np.max(np.abs(np.asarray(out) - x2)) if np.asarray(out).shape == x2.shape else 'shape ' + str(np.asarray(out).shape)}",
+                              {"kind": "smooth"})
         wl = rnd.choice([1, 3, 5, 7, 9, 11, 15, 21, 31, 2, 4, 6, 8, 10, 12, 20, 30])    # the docstring recommends odd lengths; the clause has no such limit
         win = rnd.choice(["flat", "hanning", "hamming", "bartlett", "blackman"])
+        if it % 5 == 4 and 4 <= m <= 32:
+            wl = m - 1                                                 # the shortest signal the docstring admits for a window
+        kw = {"window_len": wl, "window": win}
+        if it % 7 == 6 and m >= 11:
+            wl, win, kw = 11, "blackman", {}                           # both options left to their defaults
         if m >= wl:
+            xarg = x if it % 2 else [float(v) for v in x0]
             ok, out = real(ctx, "smooth:rolling-window", f"smooth.rolling_window(n={m}, window_len={wl}, {win})", {"kind": "smooth"},
-                           smooth.rolling_window, x, window_len=wl, window=win)
+                           smooth.rolling_window, xarg, **kw)
             ok2, out2 = real(ctx, "smooth:rolling-window", f"smooth.rolling_window(list, n={m}, window_len={wl}, {win})", {"kind": "smooth"},
-                             smooth.rolling_window, list(z), window_len=wl, window=win)
+                             smooth.rolling_window, list(z) if it % 3 else z, **kw)
             done += 2
-            if ok and ok2 and (not p_same(out, x, 1e-9) or np.asarray(out2).shape != z.shape):
-                ctx.violation("smooth:rolling-window", f"smooth.rolling_window(n={m}, window_len={wl}, {win}): constant {c} -> "
+            if ok and ok2 and (not p_same(out, x0, 1e-9) or np.asarray(out2).shape != z.shape):
+                ctx.violation("smooth:rolling-window", f"smooth.rolling_window(n={m} {x0.dtype}, window_len={wl}, {win}): constant {c} -> "
                               f"{np.asarray(out).shape} max dev {np.max(np.abs(np.asarray(out) - c)) if np.asarray(out).shape == x.shape else 'n/a'}, "
                               f"random input length {np.asarray(out2).shape}", {"kind": "smooth"})
-        # non-uniform Savitzky-Golay: polynomials up to the order, irregular abscissae
+            if ok and ok2 and it % 2 == 0:
+                x2 = np.full(m, float(c) - 1.5)
+                ok, out = real(ctx, "smooth:rolling-window", f"smooth.rolling_window(n={m}, window_len={wl}, {win})", {"kind": "smooth"},
+                               smooth.rolling_window, x2.copy(), **kw)
+                done += 1
+                if ok and not p_same(out, x2, 1e-9):
+                    ctx.violation("smooth:rolling-window", f"smooth.rolling_window(n={m}, window_len={wl}, {win}), called after two signals of the "
+                                  f"same length: constant {c - 1.5} -> {np.asarray(out).shape} max dev "
+                                  f"{np.max(np.abs(np.asarray(out) - x2)) if np.asarray(out).shape == x2.shape else 'n/a'}", {"kind": "smooth"})
+        # non-uniform Savitzky-Golay: polynomials up to the order, irregular abscissae; orders up to window - 1 (the largest the
+        # function accepts) for the short windows; abscissae / ordinates as arrays or as the lists of floats the docstring names
         order = rnd.choice([0, 1, 2, 3, 4])
         window = rnd.choice([w for w in (3, 5, 7, 11, 15, 21, 31) if w > order + 1])
+        if it % 6 == 5:
+            window, order = rnd.choice([(3, 2), (5, 4), (5, 3), (3, 1)])
         npts = rnd.randint(window + 1, window + 120)
         xx = np.cumsum(nrnd.uniform(0.2, 3.0, npts)) * rnd.choice([0.01, 1.0, 33.3]) + rnd.uniform(-100, 100)
+        if it % 8 == 7:
+            xx = np.cumsum(nrnd.integers(1, 6, npts)) + rnd.randint(-100, 100)        # integer abscissae (sample numbers with gaps)
+        aslist = it % 3 == 2
         for deg in range(order + 1):
             co = nrnd.standard_normal(deg + 1)
             yy = np.polyval(co, (xx - xx.mean()) / (np.ptp(xx) / 2))
-            ok, out = real(ctx, "smooth:savgol-polynomial", f"non_uniform_savgol(window={window}, polynom={order}, {npts} points)", {"kind": "smooth"},
-                           smooth.non_uniform_savgol, xx, yy, window, order)
+            xa, ya = ([v.item() for v in xx], [float(v) for v in yy]) if aslist else (xx.copy(), yy.copy())
+            ok, out = real(ctx, "smooth:savgol-polynomial", f"non_uniform_savgol(window={window}, polynom={order}, {npts} points"
+                           f"{', lists' if aslist else ''})", {"kind": "smooth"}, smooth.non_uniform_savgol, xa, ya, window, order)
             done += 1
             if ok and not p_same(out, yy, 1e-6):
-                ctx.violation("smooth:savgol-polynomial", f"non_uniform_savgol(window={window}, polynom={order}) does not reproduce a polynomial of "
-                              f"degree {deg} on {npts} irregular abscissae: max error {np.max(np.abs(out - yy)):.3g}", {"kind": "smooth"})
+                ctx.violation("smooth:savgol-polynomial", f"non_uniform_savgol(window={window}, polynom={order}{', lists' if aslist else ''}) does not "
+                              f"reproduce a polynomial of degree {deg} on {npts} irregular abscissae: max error "
+                              f"{np.max(np.abs(out - yy)) if np.asarray(out).shape == yy.shape else 'shape ' + str(np.asarray(out).shape)}", {"kind": "smooth"})
         # NaN gaps
         npts = rnd.randint(80, 400)
-        sig = np.sin(np.arange(npts) / rnd.uniform(5, 40)) + 0.1 * nrnd.standard_normal(npts)
+        sig = np.sin(np.arange(npts) / rnd.uniform(5, 40)) + 0.1 * nrnd.standard_normal(npts) + rnd.choice([0.0, 0.0, 250.0])
         pat = rnd.choice(["random", "bursts", "edges", "none"])
         if pat == "random":
             sig[nrnd.random(npts) < rnd.uniform(0.02, 0.3)] = np.nan
@@ -448,10 +757,13 @@ def numeric_smooth(ctx, rnd, nrnd, n):
             sig[-rnd.randint(1, 6):] = np.nan
         window = rnd.choice([5, 11, 31])
         order = rnd.choice([1, 2, 3])
+        kw = {"window": window, "order": order, "interp_kind": rnd.choice(["linear", "quadratic", "cubic"])}
+        if it % 4 == 3:
+            window, order, kw = 31, 3, {}                              # every option left to its default
         if np.sum(~np.isnan(sig)) > window + 2:
+            sarg = sig.copy() if it % 5 else [float(v) for v in sig]
             ok, out = real(ctx, "smooth:savgol-nan", f"smooth_interpolate_savgol(n={npts}, window={window}, order={order}, NaN pattern {pat})",
-                           {"kind": "smooth"}, smooth.smooth_interpolate_savgol, sig, window=window, order=order,
-                           interp_kind=rnd.choice(["linear", "quadratic", "cubic"]))
+                           {"kind": "smooth"}, smooth.smooth_interpolate_savgol, sarg, **kw)
             done += 1
             if ok and (np.asarray(out).shape != sig.shape or not np.all(np.isfinite(out))):
                 ctx.violation("smooth:savgol-nan", f"smooth_interpolate_savgol(n={npts}, window={window}, order={order}, NaN pattern {pat}) "
@@ -488,61 +800,115 @@ def run(ctx):
     _t(ctx, "models")
     recs = []
     # 2./3. venn
+    memo_numba_jit()
+    sdts = ["int64", "int64", "int32", "uint32", "uint64", "float64"]
+    cdts = ["int64", "int64", "int32", "int16", "uint8", "float64"]
     for name in (f"venn2_{tier}", f"venn3_{tier}"):
         cases = export(ctx, name)
+        # recordings longer than 2^31 / 2^32 samples (coarse bins keep the number of chunks small): a sample of the box
+        far = rnd.sample(cases, min(len(cases), 10 if ctx.quick else 150))
         cap = 700 if ctx.quick else 4000
         if len(cases) > cap:
             cases = rnd.sample(cases, cap)
         for c in cases:
             binsize, chbin = rnd.choice([3, 4, 12]), rnd.choice([2, 4])
-            trains = venn_trains(c["cols"], rnd, binsize, chbin, 2, rnd.choice([0, 2]))
+            sdt, cdt, seq = rnd.choice(sdts), rnd.choice(cdts), rnd.choice([tuple, tuple, list])
+            nchb = rnd.choice([2, 2, 3])
+            trains = venn_trains(c["cols"], rnd, binsize, chbin, nchb, rnd.choice([0, 2]), 0, sdt, cdt, ro=rnd.random() < 0.4)
             if any(t[0].size == 0 for t in trains):
                 continue            # the code takes the maximum of every train: a sorter without spikes is outside the domain
+            # the number of channels need not be a multiple of the channel bin: the last bin may be a partial one
+            nch = nchb * chbin - rnd.choice([0, 0, 1]) if max(int(t[1].max()) for t in trains) < nchb * chbin - 1 else nchb * chbin
             chunks = [None, binsize, binsize * rnd.choice([2, 3]), binsize + 1, rnd.randint(1, 3 * binsize + 1)]
             for ch in (chunks if not ctx.quick else rnd.sample(chunks, 3)):
-                t = venn_call(trains, binsize, chbin, 2 * chbin, ch)
+                t = venn_call(trains, binsize, chbin, nch, ch, seq=seq)
                 t.update(chunk=ch, binsize=binsize, scenario={"kind": "venn", "cols": c["cols"], "binsize": binsize, "chbin": chbin,
-                                                              "chunk": ch, "trains": [[a.tolist(), b.tolist()] for a, b in trains]})
-                if ch is None or ch % binsize == 0:
+                                                              "chunk": ch, "nch": nch, "sdt": sdt, "cdt": cdt,
+                                                              "trains": [[a.tolist(), b.tolist()] for a, b in trains]})
+                if t["mutated"]:
+                    venn_reuse(ctx, t, trains, binsize, chbin, nch)
+                elif ch is None or ch % binsize == 0:
                     t["exp"] = c["exp"]
                 recs.append(t)
                 ctx.count(1, key=("venn", json.dumps(c["cols"]), ch) if max(max(col) for col in c["cols"]) > 1 else None)
+        for c in far:
+            binsize, chbin = rnd.choice([2 ** 26, 3 * 2 ** 25]), rnd.choice([2, 4])
+            edge = rnd.choice([2 ** 31, 2 ** 32, 2 ** 33])
+            base = (edge // binsize - rnd.choice([0, 1])) * binsize        # the first bins straddle or follow the edge
+            sdt = rnd.choice(["int64", "uint64", "float64"] + (["uint32"] if base + (len(c["cols"]) + 2) * binsize < 2 ** 32 else []))
+            trains = venn_trains(c["cols"], rnd, binsize, chbin, 2, rnd.choice([0, 2]), base, sdt, rnd.choice(cdts))
+            if any(t[0].size == 0 for t in trains):
+                continue
+            chunks = [binsize, 2 * binsize, binsize + 1, rnd.randint(binsize // 2 + 1, 3 * binsize)]
+            for ch in rnd.sample(chunks, 2):
+                t = venn_call(trains, binsize, chbin, 2 * chbin, ch)
+                t.update(chunk=ch, binsize=binsize, scenario={"kind": "venn", "cols": c["cols"], "binsize": binsize, "chbin": chbin,
+                                                              "chunk": ch, "nch": 2 * chbin, "sdt": sdt, "cdt": str(trains[0][1].dtype),
+                                                              "trains": [[a.tolist(), b.tolist()] for a, b in trains]})
+                if t["mutated"]:
+                    venn_reuse(ctx, t, trains, binsize, chbin, 2 * chbin, chunk=2 * binsize)
+                elif ch % binsize == 0:
+                    t["exp"] = c["exp"]
+                recs.append(t)
+                ctx.count(1, key=("venn-far", json.dumps(c["cols"]), edge, ch))
+    # spike trains as sorters produce them: sampling rates as the meta files give them (floats, so that the default chunk size is a
+    # float), default bin size derived from the rate, other element types, and the plain call that leaves every option to its default
     nreal = 4 if ctx.quick else 40
     for k in range(nreal):
         ns = 2 + k % 2
-        trains = realistic_trains(rnd, nrnd, ns, rnd.choice([3, 25, 45]), 30000, 384, rnd.choice([20, 80]))
-        for ch in ([None, 30000 * 7] if k % 2 else [None, 12345]):
-            t = venn_call(trains, None, 4, 384, ch)
+        fs = [30000, 30000.0, 2500.0, 29999.95][(k // 2) % 4]
+        trains = realistic_trains(rnd, nrnd, ns, rnd.choice([3, 25, 45]), fs, 384, rnd.choice([20, 80]))
+        sdt, cdt = rnd.choice(sdts), rnd.choice(cdts[:4])
+        trains = [(a.astype(SDT[sdt]), c.astype(CDT[cdt])) for a, c in trains]
+        if k % 4 == 3:
+            trains[1] = trains[0]           # one sorting compared with itself: the same array objects for two sorters
+        if k % 3 == 2:
+            for a, c in trains:
+                a.setflags(write=False)
+                c.setflags(write=False)
+        opts = [None, int(fs) * 7] if k % 2 else [None, 12345]
+        if fs == 30000:
+            opts.append("bare")
+        for ch in opts:
+            t = venn_call(trains, None, 4, 384, None if ch == "bare" else ch, fs=fs, bare=ch == "bare")
             t.update(chunk=ch, binsize="default", scenario={"kind": "venn-realistic"})
+            if t["mutated"]:
+                venn_reuse(ctx, t, trains, None, 4, 384, fs=fs)
             recs.append(t)
             ctx.count(1, key=("venn-real", k, ch))
     _t(ctx, f"venn calls ({len(recs)})")
     # stack
     nv = len(recs)
-    for c in export(ctx, f"stack_{tier}"):
+    scases = export(ctx, f"stack_{tier}")
+    byword = {tuple(c["word"]): c for c in scases}
+    for c in scases:
         for agg, nm in ((np.sum, "sum"), (np.nanmean, "nanmean")):
-            t, data, lab = stack_call(c["word"], rnd, nrnd, agg)
-            t.update(agg=nm, exp=c["exp"], scenario={"kind": "stack", "word": c["word"], "agg": nm})
+            wkind = rnd.choice(["float", "float", "int", "int16", "list"])
+            ddt = rnd.choice(["float64", "float64", "float32", "int64"]) if nm == "sum" else "float64"
+            t, data, lab = stack_call(c["word"], rnd, nrnd, agg, wkind, ddt)
+            t.update(agg=nm, exp=c["exp"], scenario={"kind": "stack", "word": c["word"], "agg": nm, "wkind": wkind, "ddt": ddt})
             recs.append(t)
             ctx.count(1, key=("stack", tuple(c["word"]), nm) if len(set(c["word"])) > 1 else None)
-        stack_numeric(ctx, c, data, lab)
+        stack_numeric(ctx, c, data, lab, byword)
     _t(ctx, f"stack calls ({len(recs) - nv})")
     # trajectory
     nv = len(recs)
     tx = export(ctx, f"traj_{tier}")[0]
     fullrank = tx["fullrank"]
     for l in tx["layouts"]:
-        cells, x, y = layout_coords(l["present"], rnd)
+        ck = rnd.choice(COORD_KINDS)
+        cells, x, y = layout_coords(l["present"], rnd, ck)
         t = traj_call(l["nx"], l["ny"], cells, x, y)
-        t.update(exp=l["exp"], scenario={"kind": "traj", "nx": l["nx"], "ny": l["ny"], "present": l["present"]})
+        t.update(exp=l["exp"], scenario={"kind": "traj", "nx": l["nx"], "ny": l["ny"], "present": l["present"], "coords": ck})
         recs.append(t)
         ctx.count(1, key=("traj", l["nx"], l["ny"], len(cells)))
     big = [(nx, ny, stag) for nx in range(1, 5) for ny in range(4, 41) for stag in (False, True) if not (stag and nx < 2)]
     rnd.shuffle(big)
     for nx, ny, stag in big[:(25 if ctx.quick else 200)]:
-        cells, x, y = layout_coords(grid_cells(nx, ny, stag), rnd)
+        ck = rnd.choice(COORD_KINDS)
+        cells, x, y = layout_coords(grid_cells(nx, ny, stag), rnd, ck)
         t = traj_call(nx, ny, cells, x, y)
-        t.update(scenario={"kind": "traj", "nx": nx, "ny": ny, "present": [list(c) for c in grid_cells(nx, ny, stag)]})
+        t.update(scenario={"kind": "traj", "nx": nx, "ny": ny, "present": [list(c) for c in grid_cells(nx, ny, stag)], "coords": ck})
         recs.append(t)
         ctx.count(1, key=("traj", nx, ny, len(cells)))
     _t(ctx, f"trajectory calls ({len(recs) - nv})")
@@ -559,7 +925,8 @@ def run(ctx):
     ctx.cov["spec_to_code_cases"] = sum(1 for t in recs if "exp" in t)
     _t(ctx, "calls validated")
     # 4. numeric projections
-    n1 = numeric_cadzow(ctx, rnd, nrnd, fullrank, 25 if ctx.quick else 250, 10 if ctx.quick else 100)
+    n1 = numeric_cadzow(ctx, rnd, nrnd, fullrank, 60 if ctx.quick else 400, 20 if ctx.quick else 100)
+    n1 += numeric_np1(ctx, rnd, nrnd, fullrank, 5 if ctx.quick else 40)
     _t(ctx, f"cadzow projections ({n1})")
     n2 = numeric_svd(ctx, rnd, nrnd, 60 if ctx.quick else 600)
     n3 = numeric_smooth(ctx, rnd, nrnd, 70 if ctx.quick else 1000)
@@ -576,31 +943,55 @@ def run(ctx):
     ctx.cov["exhaustive"] = True
     ctx.assumptions += ["every sorter has at least one spike; spike samples are sorted non-negative integers",
                         "plane-wave identity demanded on regular full grids (the code documents regularly spaced coordinates)",
-                        "smooth.lp pad in (0, 1]; rolling_window with window lengths 1..31 of both parities; savgol window < number of points",
+                        "smooth.lp pad in (0, 1] or left to its default, signals of 1..700 samples; rolling_window with window lengths 1..31 of both parities, up to the signal length; savgol window < number of points (the docstring's limit), order <= window - 1 for windows 3 and 5",
+                        "single precision inputs (complex64 spectra, float32 matrices): identities demanded to 1e-5 relative; smoothers are given float32 / integer constants that these types hold exactly",
+                        "cadzow_np1 (the windowed caller of cadzow.denoise): parameter sets of its docstring, an even number of samples, rank = full rank of one window, identity demanded of the frequencies strictly below fmax",
                         "noise-reduction scenarios: regular grids with >= 16 rows resp. matrices with ns > nc >= 8 x rank; requested rank = number of plane waves / rank of the signal; noise 20-30 % (measured error ratio <= 0.6, required < 1)"]
 
 
-def stack_numeric(ctx, c, data, lab):
-    """projection: median / nanmean with NaN / header aggregation against numpy on the member rows the spec expects"""
+def stack_numeric(ctx, c, data, lab, byword=None):
+    """projection: median / nanmean with NaN / header aggregation against numpy on the member rows the spec expects.  The caller's
+    objects are used the way a caller uses them: the same data / label arrays for every call, and the same header dictionary for a
+    second stack along another label vector (the reversed one: its expected groups are the exported case of the reversed word)"""
     import ibldsp.voltage as voltage
     rows = [np.array(r) - 1 for r in c["exp"]["rows"]]
     d2 = data.copy()
     if d2.shape[0] > 2:
         d2[0, 3] = np.nan
     hdr = {"a": np.arange(len(lab), dtype=float), "b": data[:, 2].copy()}
+    dat = data.copy()
+    lb = dat[:, 1]                       # the labels as callers often hold them: a column of the data (a view)
+    if len(c["word"]) % 2:
+        dat.setflags(write=False)
+    c2 = (byword or {}).get(tuple(reversed(c["word"])))
+    lab2 = lab[::-1].copy()
+    ok = False
     with quiet():
-        med, _ = voltage.stack(data.copy(), lab.copy(), fcn_agg=np.median)
-        nm, _ = voltage.stack(d2.copy(), lab.copy())
-        _, hs = voltage.stack(data.copy(), lab.copy(), header=hdr)
-    with quiet():
-        ok = (med.shape[0] == len(rows) and all(np.allclose(med[k], np.median(data[r], axis=0), rtol=1e-9, atol=1e-12) for k, r in enumerate(rows))
-              and all(np.allclose(nm[k], np.nanmean(d2[r], axis=0), rtol=1e-9, atol=1e-12, equal_nan=True) for k, r in enumerate(rows))
-              and list(np.asarray(hs["fold"])) == c["exp"]["fold"]
-              and all(np.allclose(hs["a"][k], np.mean(r), rtol=1e-9) for k, r in enumerate(rows)))
-    ctx.count(3)
+        try:
+            med, _ = voltage.stack(dat, lb, fcn_agg=np.median)
+            nm, _ = voltage.stack(d2.copy(), lb)
+            _, hs = voltage.stack(dat, lb, header=hdr)
+            ok = (med.shape[0] == len(rows) and all(np.allclose(med[k], np.median(data[r], axis=0), rtol=1e-9, atol=1e-12) for k, r in enumerate(rows))
+                  and all(np.allclose(nm[k], np.nanmean(d2[r], axis=0), rtol=1e-9, atol=1e-12, equal_nan=True) for k, r in enumerate(rows))
+                  and list(np.asarray(hs["fold"])) == c["exp"]["fold"]
+                  and all(np.allclose(hs["a"][k], np.mean(r), rtol=1e-9) for k, r in enumerate(rows)))
+            ctx.count(3)
+            if ok and c2 is not None:
+                rows2 = [np.array(r) - 1 for r in c2["exp"]["rows"]]
+                st2, hs2 = voltage.stack(dat, lab2, header=hdr, fcn_agg=np.sum)
+                ctx.count(1)
+                ok = (st2.shape[0] == len(rows2) and list(np.asarray(hs2["fold"])) == c2["exp"]["fold"]
+                      and all(np.allclose(st2[k], np.sum(data[r], axis=0), rtol=1e-9, atol=1e-12) for k, r in enumerate(rows2))
+                      and all(np.allclose(hs2["a"][k], np.mean(r), rtol=1e-9) and np.allclose(hs2["b"][k], np.mean(data[r, 2]), rtol=1e-9, atol=1e-12)
+                              for k, r in enumerate(rows2)))
+        except Exception as e:
+            ctx.violation("stack:aggregate-raised", f"stack(word={c['word']}) with median / NaN / header raised {type(e).__name__}: {str(e)[:120]}",
+                          {"kind": "stack", "word": c["word"], "agg": "numeric"})
+            return
     if not ok:
-        ctx.violation("stack:aggregate", f"stack(word={c['word']}): median / nanmean / header aggregates are not the aggregates of the traces "
-                      f"carrying each label", {"kind": "stack", "word": c["word"], "agg": "numeric"})
+        ctx.violation("stack:aggregate", f"stack(word={c['word']}): median / nanmean / header aggregates (header dictionary and arrays used for "
+                      f"a second stack along the reversed labels) are not the aggregates of the traces carrying each label",
+                      {"kind": "stack", "word": c["word"], "agg": "numeric"})
 
 
 def compare_expected(recs):
@@ -687,34 +1078,42 @@ def selftest(ctx, recs, bad):
 
 
 def replay(ctx, sc):
+    memo_numba_jit()
     rnd = random.Random(ctx.seed)
     nrnd = np.random.default_rng(ctx.seed)
     kind = sc.get("kind")
     recs = []
     if kind == "venn":
-        trains = [(np.array(a, dtype=np.int64), np.array(b, dtype=np.int64)) for a, b in sc["trains"]]
-        t = venn_call(trains, sc["binsize"], sc["chbin"], 2 * sc["chbin"], sc["chunk"])
+        trains = [(np.array(a).astype(SDT.get(sc.get("sdt"), np.int64)), np.array(b).astype(CDT.get(sc.get("cdt"), np.int64))) for a, b in sc["trains"]]
+        t = venn_call(trains, sc["binsize"], sc["chbin"], sc.get("nch", 2 * sc["chbin"]), sc["chunk"])
         t.update(chunk=sc["chunk"], binsize=sc["binsize"], scenario=sc)
+        if t["mutated"]:
+            venn_reuse(ctx, t, trains, sc["binsize"], sc["chbin"], sc.get("nch", 2 * sc["chbin"]), chunk=2 * sc["binsize"])
         recs.append(t)
     elif kind == "stack":
         for agg, nm in ((np.sum, "sum"), (np.nanmean, "nanmean")):
-            t, data, lab = stack_call(sc["word"], rnd, nrnd, agg)
-            t.update(agg=nm, scenario=sc)
-            recs.append(t)
+            for wkind in (["float", "int", "int16", "list"] if nm == "sum" else [sc.get("wkind", "float")]):
+                for ddt in (["float64", "float32", "int64"] if nm == "sum" else ["float64"]):
+                    t, data, lab = stack_call(sc["word"], rnd, nrnd, agg, wkind, ddt)
+                    t.update(agg=nm, scenario=sc)
+                    recs.append(t)
         exp = export(ctx, "stack_thorough" if len(sc["word"]) > 5 else "stack_quick")
+        byword = {tuple(c["word"]): c for c in exp}
         for c in exp:
             if c["word"] == sc["word"]:
-                stack_numeric(ctx, c, data, lab)
+                stack_numeric(ctx, c, data, lab, byword)
     elif kind == "traj":
-        cells, x, y = layout_coords(sc["present"], rnd)
-        t = traj_call(sc["nx"], sc["ny"], cells, x, y)
-        t.update(scenario=sc)
-        recs.append(t)
+        for ck in dict.fromkeys([sc.get("coords", "float"), "float", "int", "f32", "list"]):
+            cells, x, y = layout_coords(sc["present"], rnd, ck)
+            t = traj_call(sc["nx"], sc["ny"], cells, x, y)
+            t.update(scenario=sc)
+            recs.append(t)
     else:
         # numeric scenarios are regenerated from the seed: re-run the projections of the quick tier
         fullrank = export(ctx, "traj_quick")[0]["fullrank"]
         if kind == "cadzow":
             numeric_cadzow(ctx, rnd, nrnd, fullrank, 40, 20)
+            numeric_np1(ctx, rnd, nrnd, fullrank, 5)
         elif kind == "svd":
             numeric_svd(ctx, rnd, nrnd, 100)
         else:
